@@ -58,7 +58,8 @@ pub fn decode_hist(data: &[u8]) -> Hist {
             },
             9 => Op::DiscardNear(arg % 5),
             10 | 11 => Op::PushMany(arg % 7),
-            12 | 13 => Op::TryExtend(arg % 7),
+            12 => Op::TryExtend(arg % 7),
+            13 => Op::TryExtendHint(arg % 7, (arg / 7) % 3, (arg / 21) % 6),
             14 => {
                 if arg == 255 {
                     Op::SetMax(usize::MAX)
